@@ -192,7 +192,7 @@ class ProbeCrate:
         return i
 
     def main_rs(self):
-        parts = ["#![allow(warnings)]", "#![recursion_limit = \"512\"]", "mod support;", "use support::*;",
+        parts = [("#![allow(unused, non_snake_case, non_camel_case_types)]" if getattr(self, "warn_deprecated", False) else "#![allow(warnings)]"), "#![recursion_limit = \"512\"]", "mod support;", "use support::*;",
                  "use leptos::prelude::*;", "leptos_i18n::load_locales!();", "use i18n::*;", self.extra_items]
         for i, body in self.obs:
             parts.append("fn obs_%d() {\n%s\n}" % (i, body))
